@@ -480,7 +480,8 @@ fn un_build<'a, F: Fr>(u: Un, child: Dyn<'a, F>, w: &mut Watch, delay_above: usi
         Un::OffsetPC => Dyn(Box::new(child.offset_amp_per_channel(F::offset_pc()))),
         Un::Clip => Dyn(Box::new(child.clip_amp(F::clip_t()))),
         Un::Inspect => {
-            let log: Rc<RefCell<Vec<F>>> = Rc::new(RefCell::new(Vec::new()));
+            // pre-reserved so that the harness-side log never allocates while the program runs (C07 audit)
+            let log: Rc<RefCell<Vec<F>>> = Rc::new(RefCell::new(Vec::with_capacity(64)));
             let l2 = log.clone();
             let exp = expect.frames.clone();
             w.inspects.push(Box::new(move |k| {
